@@ -89,7 +89,7 @@ PROPS = {
         rule="exhaustive 256x256 (discriminator, type) pairs at both header offsets with minimal valid bodies; all inputs of length 0..2, sampled 3..4; encode dispatch over all 256 types; non-trivial = accepted",
     ),
     "C11": dict(
-        level="proof", modules=["NasVerif.Props.C11"], parts=["Counter"],
+        level="proof", modules=["NasVerif.Props.C11", "NasVerif.Props.C11Tie"], parts=["Counter"],
         streams=[("counter", 4000, 20000)], oracle="C11",
         trusted_base=TB_COMMON + ["tools/extract intx: Go uintN expressions -> BitVec N (wrap-around +, shifts by constants, &,|,^, conversions = setWidth)"],
         rule="random op sequences (set/setSQN/setOverflow/inc/reads) biased to edge values + carry boundaries + increment walks (thorough: all 2^24 states); non-trivial = distinct op sequence executed",
